@@ -326,6 +326,36 @@ def run(chk):
     batcher.bounded_retry(chk, P, "C12.batcher")
     batcher.retry_remainder(chk, P, "C12.batcher")
     batcher.batch_error_helpers(chk, P, "C12.batcher")
+    def body_errors_propagate():
+        """Reading the response body: a frame error (connection lost mid-response) is an error of the request, never 'end of body'."""
+        ks = [k for k in P.bodies if "BufNext" in k and k.endswith("::poll") and k.startswith("<emit_otlp::client::http::HttpResponse::stream_payload")]
+        if not ks:
+            raise mir.AnchorMissing("the response-body future in HttpResponse::stream_payload")
+        b = P.body(ks[0])
+        pf = [c for c in b.calls(normal_only=True) if c.callee.get("name") == "poll_frame"]
+        if len(pf) != 1:
+            raise mir.AnchorMissing("poll_frame in the response-body future")
+        seen_err = 0
+        for rb in b.return_blocks():
+            for path in b.acyclic_paths(0, rb, limit=3000):
+                ps = mir.PathSummary(b, path)
+                ds = [tuple(v) for s_, o, v in ps.decisions() if o[0] == "discr" and common.has_root(o, "callsite", pf[0].bb)]
+                # Poll::Ready(0) / Option::Some(1) / Result::Err(1) of the frame
+                if len(ds) >= 3 and ds[0] in (("0",), (0,)) and ds[1] in (("1",), (1,)) and ds[2] in (("1",), (1,)):
+                    seen_err += 1
+                    r = ps.ret()
+                    inner = r[2][0] if r[0] == "agg" and r[2] else None
+                    if not (inner is not None and inner[0] == "agg" and inner[1].get("variant") == "Err"):
+                        return False, ("when reading the response body fails (connection lost after the headers) the future yields %s instead of an "
+                                       "error: a gRPC request whose grpc-status trailer never arrived would count as acknowledged and never be sent "
+                                       "again" % o_str(r)), [], pf[0].loc
+        if not seen_err:
+            return False, ("the response-body future has no arm for a failed frame (Some(Err(_))): a read error is treated like another outcome "
+                           "(end of body / success)"), [], pf[0].loc
+        sp = P.body("emit_otlp::client::http::HttpResponse::stream_payload::{closure#0}") if P.has_body("emit_otlp::client::http::HttpResponse::stream_payload::{closure#0}") else None
+        return True, "", [pf[0].loc]
+    chk.ob("C12.R5:body-errors-propagate", "a failed read of the response body fails the request (it is not mistaken for the end of the body)", body_errors_propagate)
+
     def grpc_frame():
         """gRPC length-prefixed framing: 1 flag byte (1 iff the body is compressed) + the payload length as 4 big-endian bytes."""
         bodies = [b for b in P.by_crate["emit_otlp"] if [c for c in b.calls(normal_only=True) if c.callee.get("name") == "with_content_frame"]]
@@ -367,4 +397,6 @@ def run(chk):
     from . import c07
     c07.end_to_end(chk, P, "C12.flush", only=("R5:OtlpInner::blocking_flush", "R5:Otlp::blocking_flush", "R5:otlp-transport"))
     common.builder_rules(chk, P, "C12", lambda b: b.crate == "emit_otlp" and ("Builder::" in b.key or "HttpContent::" in b.key), 10)
+    # request grouping: the OTLP channel's clear() resets every field push() updates or len() reads (shared with C09)
+    batcher.channel_impls(chk, P, "C12.channel")
     return chk
